@@ -227,3 +227,15 @@ m("c16-del-childs-false-drops-grandchildren-group", ["C16"], Y,
 m("c16-phases-report-uses-ctor-value-for-listed", ["C16"], Y,
   "                        if p == \"N/A\":\n                            pwr += [self._g[n]._params[\"pwr\"]]\n                        else:\n                            pwr += [self._phase_lkup[n][p]]",
   "                        if p == \"N/A\" or True:\n                            pwr += [self._g[n]._params[\"pwr\"]]\n                        else:\n                            pwr += [self._phase_lkup[n][p]]")
+
+# ---- C17 -------------------------------------------------------------------------------------
+m("c17-battlife-restore-not-in-finally", ["C17"], Y,
+  "        finally:\n            # restore source params\n            self._g[pidx]._params[\"vo\"] = vo_org\n            self._g[pidx]._params[\"rs\"] = rs_org",
+  "        except ValueError:\n            raise\n        else:\n            # restore source params\n            self._g[pidx]._params[\"vo\"] = vo_org\n            self._g[pidx]._params[\"rs\"] = rs_org")
+m("c17-battlife-restores-rs-only", ["C17"], Y,
+  "        finally:\n            # restore source params\n            self._g[pidx]._params[\"vo\"] = vo_org\n", "        finally:\n            # restore source params\n")
+m("c17-get-conf-returns-module-dict", ["C17"], D, "    return copy.deepcopy(_DEF_CONF)", "    return _DEF_CONF")
+m("c17-diag-config-not-copied", ["C17"], D, "        bd_conf = copy.deepcopy(config)", "        bd_conf = config\n        bd_conf[\"graph\"].setdefault(\"label\", \"\")\n        bd_conf[\"graph\"].pop(\"label\")\n        bd_conf[\"node\"][\"default\"][\"margin\"] = \"0.1\"")
+m("c17-solve-tags-default-mutated", ["C17"], Y, "            if tags != {}:\n                for key in tags.keys():\n                    res[key] = [tags[key]] * len(names)", "            tags.setdefault(\"_n\", len(names))\n            tags.pop(\"_n\")\n            if ph != \"\":\n                tags[\"phase\"] = ph\n            if tags != {}:\n                for key in tags.keys():\n                    res[key] = [tags[key]] * len(names)")
+m("c17-params-report-normalises-in-place", ["C17"], C, "                else:\n                    ret[param] = self._params[param]\n        return ret", "                else:\n                    ret[param] = self._params[param]\n                    if param == \"rt\":\n                        self._params[param] = round(self._params[param], 1)\n        return ret")
+m("c17-hdiag-solve-leaves-phase-cache", ["C17"], Y, "    def _set_phase_lkup(self):\n        \"\"\"Make lookup from node # to load phases\"\"\"\n        self._phase_lkup = {}", "    def _set_phase_lkup(self):\n        \"\"\"Make lookup from node # to load phases\"\"\"\n        if getattr(self, \"_phase_lkup\", None):\n            return\n        self._phase_lkup = {}")
